@@ -257,6 +257,17 @@ class Ctx:
                 v["driver"] = driver
             self.violations.append(v)
 
+    def absorb_beyond(self, r, module):
+        """A replay that belongs to a specification module beyond the listed properties: its mismatches are leads, its
+        counts go into the notes - it never decides the property this check is registered for."""
+        sigs = {}
+        for v in r.get("violations", []):
+            sigs.setdefault(v.get("sig", ""), v.get("detail", ""))
+        for sig, det in sorted(sigs.items()):
+            self.leads.append("BEYOND module=%s %s :: %s" % (module, sig, str(det)[:300]))
+        self.notes.append("beyond the listed property - %s: %d behaviours replayed on the real code (%d distinct, %d only partly realisable), %d mismatches"
+                          % (module, r.get("evaluations", 0), r.get("distinct", 0), r.get("trivial", 0), len(r.get("violations", []))))
+
     # ---- verdict ------------------------------------------------------------------------------------
     def finish(self, level="model_checking"):
         known = load_known()
